@@ -63,8 +63,8 @@ pub fn arity(tok: &Value) -> usize {
     let k = s(tok, "k");
     match k.as_str() {
         | "var" | "int" | "unit" | "str" | "tyterm" | "import" => 0,
-        | "thunk" | "ret" | "lam" | "force" | "exit" | "ctor" | "dtor" | "fix" | "i2s" => 1,
-        | "do" | "app" | "let" | "arith" | "pair" | "matchP" | "wl" | "sapp" => 2,
+        | "thunk" | "ret" | "lam" | "force" | "exit" | "ctor" | "dtor" | "fix" | "i2s" | "vlam" => 1,
+        | "do" | "app" | "let" | "arith" | "pair" | "matchP" | "wl" | "sapp" | "vapp" => 2,
         | "br" => 4,
         | "match" => 1 + data_arms(&s(tok, "d")).len() - if n(tok, "skip") == 0 { 0 } else { 1 },
         | "comatch" => co_arms(&s(tok, "d")).len() - if n(tok, "skip") == 0 { 0 } else { 1 },
@@ -91,6 +91,7 @@ pub fn ty(t: &Value) -> String {
         | "thk" => format!("Thk ({})", ty(&t["c"])),
         | "ret" => format!("Ret ({})", ty(&t["a"])),
         | "fn" => format!("({} -> {})", ty(&t["a"]), ty(&t["c"])),
+        | "vfn" => format!("({} -> {})", ty(&t["a"]), ty(&t["b"])),
         | other => panic!("unknown type former {other}"),
     }
 }
@@ -177,7 +178,8 @@ impl Renderer {
             | "ctor" | "comatch" | "import" => false,
             | "thunk" | "ret" | "force" | "dtor" => Self::synth(&node.kids[0]),
             | "pair" => node.kids.iter().all(Self::synth),
-            | "lam" | "fix" => Self::synth(&node.kids[0]),
+            | "lam" | "fix" | "vlam" => Self::synth(&node.kids[0]),
+            | "vapp" => Self::synth(&node.kids[0]),
             | "do" | "let" => Self::synth(&node.kids[1]),
             | "app" => Self::synth(&node.kids[0]),
             | "arith" | "i2s" | "sapp" | "exit" | "wl" | "br" => true,
@@ -201,6 +203,8 @@ impl Renderer {
             | "pair" => json!({"t":"pair","a":t["a"],"b":t["b"]}),
             | "ret" => json!({"t":"ret","a":t["a"]}),
             | "lam" => json!({"t":"fn","a":t["a"],"c":t["c"]}),
+            | "vlam" => json!({"t":"vfn","a":t["a"],"b":t["b"]}),
+            | "vapp" => t["b"].clone(),
             | "do" | "app" | "force" | "let" | "fix" | "br" | "matchP" | "match" | "dtor" => t["c"].clone(),
             | "arith" => json!({"t":"ret","a":{"t":"int"}}),
             | "i2s" | "sapp" => json!({"t":"ret","a":{"t":"str"}}),
@@ -259,13 +263,26 @@ impl Renderer {
             }
             | "ret" => {
                 let a = self.term(&node.kids[0], ctx, tys);
-                wrap(format!("ret {a}"), &json!({"t":"ret","a":t["a"]}))
+                wrap(format!("ret {}", paren(&a)), &json!({"t":"ret","a":t["a"]}))
             }
             | "lam" => {
                 let x = self.fresh(ctx, &[&node.kids[0]]);
                 let (c2, t2) = push(ctx, tys, &x, &t["a"]);
                 let b = self.term(&node.kids[0], &c2, &t2);
                 wrap(format!("fn ({x} : {}) => {b}", ty(&t["a"])), &json!({"t":"fn","a":t["a"],"c":t["c"]}))
+            }
+            | "vlam" => {
+                let x = self.fresh(ctx, &[&node.kids[0]]);
+                let (c2, t2) = push(ctx, tys, &x, &t["a"]);
+                let b = self.term(&node.kids[0], &c2, &t2);
+                let body = format!("fn ({x} : {}) => {b}", ty(&t["a"]));
+                if full { wrap(body, &json!({"t":"vfn","a":t["a"],"b":t["b"]})) } else { format!("({body})") }
+            }
+            | "vapp" => {
+                let f = self.syn(&node.kids[0], ctx, tys);
+                let a = self.term(&node.kids[1], ctx, tys);
+                let body = format!("{f} {}", paren(&a));
+                if full { wrap(body, &t["b"]) } else { format!("({body})") }
             }
             | "do" => {
                 let m = if full {
@@ -542,7 +559,7 @@ fn amplify(root: &Node, depth: usize, out: &mut Vec<Node>, rebuild: &dyn Fn(Node
         }
     }
     let binds: Vec<usize> = match k.as_str() {
-        | "lam" | "fix" => vec![1],
+        | "lam" | "fix" | "vlam" => vec![1],
         | "do" | "let" => vec![0, 1],
         | "matchP" => vec![0, 2],
         | "match" => std::iter::once(0).chain(std::iter::repeat(1)).take(root.kids.len()).collect(),
@@ -849,7 +866,7 @@ fn split_first(node: &Node, depth: usize) -> Option<(Node, Node, Value)> {
     }
     // binders introduced by this node for each child
     let binds: Vec<usize> = match k.as_str() {
-        | "lam" | "fix" => vec![1],
+        | "lam" | "fix" | "vlam" => vec![1],
         | "do" | "let" => vec![0, 1],
         | "matchP" => vec![0, 2],
         | "match" => std::iter::once(0).chain(std::iter::repeat(1)).take(node.kids.len()).collect(),
